@@ -179,6 +179,36 @@ def run(ctx: Ctx) -> None:
                 ctx.fail("malformed-output", f"html-off output is not well-formed renderer-only markup: {err}",
                          {"input": src, "cfg": gens.FIXED_CFGS[1], "output": html[:400], "error": err})
                 break
+        # verbatim containers whose content looks like the renderer's own output (a renderer that special-cases "already wrapped" content)
+        bodies = ["<pre><script>alert(1)</script></pre>", "<pre>x</pre>", "<pre><code>y</code></pre>", "<pre", "</pre>", "<code>z</code>", "<p>p</p>",
+                  "<br />", "<img src=x onerror=y>", "<pre>\n<b onmouseover=z>\n</pre>", "&lt;pre&gt;", "<pre class=\"q\">r</pre>", "<PRE>s</PRE>",
+                  "<a href=\"javascript:t\">u</a>", "<hr />", "<blockquote>\nv\n</blockquote>", "<li>w</li>", "<h1>x</h1>", "<em>y</em>", "<s>z</s>"]
+        frames = ["```\n%s\n```\n", "~~~ info\n%s\n~~~\n", "```%s\nbody\n```\n", "    %s\n", "`%s`\n", "![%s](u)\n", "[a](u '%s')\n", "![a](u \"%s\")\n",
+                  "> ```\n> %s\n> ```\n", "- ```\n  %s\n  ```\n", "%s\n", "# %s\n", "a|b\n-|-\n%s|c\n", "[r]: /u '%s'\n\n[r]\n", "<%s>\n", "&%s;\n"]
+        mdoff = [MarkdownIt("js-default"), MarkdownIt("commonmark", {"html": False}), MarkdownIt("js-default", {"xhtmlOut": True, "breaks": True, "langPrefix": "l-"})]
+        nverb = 0
+        for b in bodies:
+            for fr in frames:
+                src = fr % (b if "\n" not in fr.split("%s")[0][-3:] or True else b)
+                if "%s" in fr and "\n" in b and not fr.startswith(("```\n", "~~~", "> ```", "- ```")):
+                    src = fr % b.replace("\n", " ")
+                elif fr.startswith("> ```"):
+                    src = fr % b.replace("\n", "\n> ")
+                elif fr.startswith("- ```"):
+                    src = fr % b.replace("\n", "\n  ")
+                for m_ in mdoff:
+                    nverb += 1
+                    try:
+                        html = m_.render(src)
+                    except Exception:
+                        continue
+                    err = lex(html)
+                    ctx.count((src, "verbatim-markup"), nontrivial=True)
+                    if err:
+                        ctx.fail("malformed-output", f"html-off output is not well-formed renderer-only markup: {err}",
+                                 {"input": src, "cfg": gens.FIXED_CFGS[1], "output": html[:400], "error": err})
+                        break
+        ctx.cov["markup_shaped_verbatim_cases"] = nverb
         ctx.evaluations += nsweep
         ctx.cov["delimiter_sweep_strings"] = nsweep
         # html switched off on a *used* instance, by every route: the configuration at render time has html off, whatever was
